@@ -943,7 +943,17 @@ func (c *Ctx) SIBARM(rule string, pkgs ...string) []report.Obligation {
 								hasStr = true
 							}
 						}
-						if hasStr && cal.Signature.Results().Len() >= 1 {
+						// a parser is a function of its own standing: exported, or used from several places. An
+						// unexported helper with this one call site is the body of the arm moved elsewhere.
+						shared := cal.Object() != nil && cal.Object().Exported()
+						if !shared {
+							sites := 0
+							for _, g := range c.P.Funcs {
+								sites += len(callSites(g, func(com *ssa.CallCommon) bool { return com.StaticCallee() == cal }))
+							}
+							shared = sites >= 2
+						}
+						if hasStr && shared && cal.Signature.Results().Len() >= 1 {
 							res[cid] = true
 						}
 					}
